@@ -47,8 +47,8 @@ def mutant_table():
 
 text = open(f"{HERE}/DESIGN.md").read()
 for name, fn in (("status-table", status_table), ("seeded-table", seeded_table), ("mutant-table", mutant_table)):
-    pat = re.compile(rf"(<!-- BEGIN:{name} -->\n).*?(\n<!-- END:{name} -->)", re.S)
+    pat = re.compile(rf"(<!-- BEGIN:{name} -->\n).*?(<!-- END:{name} -->)", re.S)
     if pat.search(text):
-        text = pat.sub(lambda mm: mm.group(1) + fn() + mm.group(2), text)
+        text = pat.sub(lambda mm: mm.group(1) + fn() + "\n" + mm.group(2), text)
 open(f"{HERE}/DESIGN.md", "w").write(text)
 print("tables regenerated")
